@@ -14,7 +14,7 @@ func specIsDigit(c byte) bool { return '0' <= c && c <= '9' }
 
 // specDigitRun is the number of consecutive DIGITs of in starting at i.
 //
-//@ opaque
+// @ opaque
 func specDigitRun(in []byte, i int) int {
 	if 0 <= i && i < len(in) && specIsDigit(in[i]) {
 		return 1 + specDigitRun(in, i+1)
@@ -83,25 +83,25 @@ func specNumberEnd(in []byte) int {
 	return specFracEnd(in)
 }
 
-//@ props C21
-//@ mode int
+// @ props C21
+// @ mode int
 func contract_isNotDelim(c byte) (r bool) {
 	ensures(r == (c == '-' || c == '+' || c == '.' || c == '_' || ('a' <= c && c <= 'z') || ('A' <= c && c <= 'Z') || ('0' <= c && c <= '9')))
 	return
 }
 
-//@ props C21
-//@ mode int
-//@ loop 1 invariant suffixOf(s, input) && n == len(input)-len(s) && specIntStart(input) < n
-//@ loop 1 invariant specDigitRun(input, specIntStart(input)) == n-specIntStart(input)+specDigitRun(input, n)
-//@ loop 1 decreases len(s)
-//@ loop 2 invariant suffixOf(s, input) && n == len(input)-len(s) && specIntEnd(input)+1 < n
-//@ loop 2 invariant specDigitRun(input, specIntEnd(input)+1) == n-(specIntEnd(input)+1)+specDigitRun(input, n)
-//@ loop 2 decreases len(s)
-//@ loop 3 invariant suffixOf(s, input) && n == len(input)-len(s)
-//@ loop 3 invariant imp(specExpDigits(input) >= 0, specExpDigits(input) <= n && specDigitRun(input, specExpDigits(input)) == n-specExpDigits(input)+specDigitRun(input, n))
-//@ loop 3 invariant imp(specExpDigits(input) < 0, n > specFracEnd(input))
-//@ loop 3 decreases len(s)
+// @ props C21
+// @ mode int
+// @ loop 1 invariant suffixOf(s, input) && n == len(input)-len(s) && specIntStart(input) < n
+// @ loop 1 invariant specDigitRun(input, specIntStart(input)) == n-specIntStart(input)+specDigitRun(input, n)
+// @ loop 1 decreases len(s)
+// @ loop 2 invariant suffixOf(s, input) && n == len(input)-len(s) && specIntEnd(input)+1 < n
+// @ loop 2 invariant specDigitRun(input, specIntEnd(input)+1) == n-(specIntEnd(input)+1)+specDigitRun(input, n)
+// @ loop 2 decreases len(s)
+// @ loop 3 invariant suffixOf(s, input) && n == len(input)-len(s)
+// @ loop 3 invariant imp(specExpDigits(input) >= 0, specExpDigits(input) <= n && specDigitRun(input, specExpDigits(input)) == n-specExpDigits(input)+specDigitRun(input, n))
+// @ loop 3 invariant imp(specExpDigits(input) < 0, n > specFracEnd(input))
+// @ loop 3 decreases len(s)
 func contract_parseNumber(input []byte) (n int, ok bool) {
 	// an accepted token is exactly the longest JSON-number prefix, followed by a delimiter or the end
 	ensures(imp(ok, n == specNumberEnd(input) && n > 0 && n <= len(input)))
